@@ -41,10 +41,14 @@ def fl(v):
 
 
 def tol_for(world, eff, T, power=1):
+    """Float tolerance, RELATIVE to the largest loss magnitude seen so far (every estimate is linear in the losses), so
+    that a deviation is not hidden just because the losses of a world are tiny; the loss-direction offset of 1 is part of
+    the magnitudes when it is in play."""
     d = world.d
-    base = max(1.0, world.maxloss)
+    base = world.maxloss + (1.0 if eff.get("lbib") else 0.0)
     if power == 2:
-        base = 4.0 * base * base
+        base = 4.0 * world.maxloss * world.maxloss
+    base = max(base, 1e-300)
     k = T + 2
     if eff.get("dynamic"):
         a = fl(eff["alpha"])
@@ -185,6 +189,16 @@ class C01Oracle(BaseOracle):
 # C02
 # ----------------------------------------------------------------------------------------------
 
+def exercise_readonly(e):
+    """Calls every read-only public method; none of them may disturb the estimates."""
+    for fn in (lambda: e.get_normalized_importance_values("sum"), lambda: e.get_normalized_importance_values("delta"),
+               lambda: e.get_normalized_importance_values(), lambda: e.get_confidence_bound(0.5), lambda: repr(e)):
+        try:
+            fn()
+        except Exception:  # noqa: BLE001  (before the first estimate some of them raise by design)
+            pass
+
+
 class C02Oracle(BaseOracle):
     prop = "C02"
 
@@ -203,6 +217,22 @@ class C02Oracle(BaseOracle):
         return r
 
     def after_op(self, ctx):
+        if ctx.op["op"] == "observe" and ctx.explainer is not None and ctx.ecfg["cls"] == "pfi" and \
+                ctx.e_index in self.refs and self.refs[ctx.e_index].steps > 0:
+            # "after each observation ... equals": reading through the public read-only API in between changes nothing
+            k, e, w = ctx.e_index, ctx.explainer, self.world
+            ref = self.refs[k]
+            eff = effective(ctx.ecfg, w)
+            exercise_readonly(e)
+            fz = eff.get("inexact", False)
+            msg = dict_equal(e.importance_values, ref.importance(), tol_for(w, eff, ref.steps), fz)
+            if msg:
+                return self.v("importance-values-after-reading", msg, explainer=k, step=ref.steps)
+            msg = dict_equal(e.variances, ref.variances(), tol_for(w, eff, ref.steps, power=2), fz)
+            if msg:
+                return self.v("variances-after-reading", msg, explainer=k, step=ref.steps)
+            self.probe("readonly_api_exercised")
+            return None
         if ctx.op["op"] != "explain" or ctx.explainer is None or ctx.ecfg["cls"] != "pfi":
             return None
         k, e, w = ctx.e_index, ctx.explainer, self.world
@@ -289,6 +319,25 @@ class C03Oracle(BaseOracle):
         return r
 
     def after_op(self, ctx):
+        if ctx.op["op"] == "observe" and ctx.explainer is not None and ctx.ecfg["cls"] == "sage" and \
+                ctx.e_index in self.refs and self.refs[ctx.e_index].steps > 0 and \
+                self.refs[ctx.e_index].importance() is not None:
+            k, e, w = ctx.e_index, ctx.explainer, self.world
+            ref = self.refs[k]
+            eff = effective(ctx.ecfg, w)
+            exercise_readonly(e)
+            fz = eff.get("inexact", False)
+            msg = dict_equal(e.importance_values, ref.importance(), tol_for(w, eff, ref.steps), fz)
+            if msg:
+                return self.v("importance-values-after-reading", msg, explainer=k, step=ref.steps)
+            msg = dict_equal(e.variances, ref.variances(), tol_for(w, eff, ref.steps, power=2), fz)
+            if msg:
+                return self.v("variances-after-reading", msg, explainer=k, step=ref.steps)
+            if not num_equal(e.marginal_loss, ref.marginal_loss(), tol_for(w, eff, ref.steps), fz):
+                return self.v("marginal-loss-after-reading", "got %r expected %r" % (e.marginal_loss, ref.marginal_loss()),
+                              explainer=k)
+            self.probe("readonly_api_exercised")
+            return None
         if ctx.op["op"] != "explain" or ctx.explainer is None or ctx.ecfg["cls"] != "sage":
             return None
         k, e, w = ctx.e_index, ctx.explainer, self.world
@@ -332,7 +381,8 @@ class C03Oracle(BaseOracle):
             self.probe("multi_label_marginal")
         if not num_equal(e.model_loss, ref.model_loss(), tol, fz):
             return self.v("model-loss", "got %r expected %r" % (e.model_loss, ref.model_loss()), explainer=k, step=T)
-        msg = dict_equal(e.marginal_prediction, ref.marginal_prediction, tol, fz)
+        tolp = tol * max(1.0, w.maxpred) / max(w.maxloss + (1.0 if eff.get("lbib") else 0.0), 1e-300)
+        msg = dict_equal(e.marginal_prediction, ref.marginal_prediction, tolp, fz)
         if msg:
             return self.v("marginal-prediction", msg, explainer=k, step=T)
         if not num_equal(e.marginal_loss, ref.marginal_loss(), tol, fz):
